@@ -85,6 +85,11 @@ func (f *c16Fix) check(tok *c16Token, q *c16Req) []c16Viol {
 			break
 		}
 	}
+	// the root token is the key to all administration ("served only if it carries the root
+	// token ..."): a response that hands it to a read / write token hands over /system and /auth
+	if bytes.Contains(rs.Body, []byte(c16Root)) && !bytes.Contains(q.Body, []byte(c16Root)) && !strings.Contains(q.Target, c16Root) {
+		add("admin-reach", "the response to a %s-role token contains the root token", tok.Role)
+	}
 	if m := f.mintedTokens(rs.Body, tok.Token); len(m) > 0 {
 		add("admin-reach", "the response to a %s-role token carries %d freshly minted token(s) that this server accepts", tok.Role, len(m))
 	}
@@ -197,9 +202,20 @@ func (f *c16Fix) mintSpec(role, ns string) *c16Token {
 		return f.mint(role, []string{f.idx[0].Name})
 	case "AB":
 		return f.mint(role, []string{f.idx[0].Name, f.idx[1].Name})
+	case "AA": // a duplicate entry restricts like a single one
+		return f.mint(role, []string{f.idx[0].Name, f.idx[0].Name})
+	case "A+missing": // an entry for an index that does not exist widens nothing
+		return f.mint(role, []string{f.idx[0].Name, "no_such_index"})
+	case "E": // the empty name is no index: such a token covers nothing
+		return f.mint(role, []string{""})
+	case "A*": // a list that contains the wildcard is global
+		return f.mint(role, []string{f.idx[0].Name, "*"})
 	}
 	return f.mint(role, []string{"*"})
 }
+
+// c16OddSpecs: namespace-list shapes beyond [A], [A,B], [*] (random group only).
+var c16OddSpecs = []string{"AA", "A+missing", "E", "A*"}
 
 var c16Collect = os.Getenv("VERIF_C16_COLLECT") != "" // development aid: tally instead of failing
 
@@ -231,6 +247,8 @@ func TestVerifC16(t *testing.T) {
 		}
 		ctx.Count("routes_parsed", int64(len(routes)))
 		ctx.Count("middleware_words", int64(len(words)))
+		ctx.Count("middleware_listed_route_words", int64(c16ListedWords))
+		ctx.Count("default_index_names_parsed", int64(len(c16DefaultAll)))
 		ctx.Assume("an admin-role token is unrestricted whatever its namespace list says (pkg/auth/rbac.go: \"Admin can do anything anywhere\"); oracles 1-3 apply to read and write tokens")
 		ctx.Assume("the KV store is not an index: namespace oracle (3) is evaluated on vector indexes and their graph data only; _sys_auth::* keys are covered by oracles (1) and (2)")
 		ctx.Assume("fixture indexes have no memory/decay configuration, so searches have no bookkeeping side effects")
@@ -242,6 +260,16 @@ func TestVerifC16(t *testing.T) {
 		ctx.Group("sweep", len(routes), func(cs *vkit.Case) {
 			rt := routes[cs.Idx]
 			names := c16NamePairs[cs.R.Intn(len(c16NamePairs))]
+			if defs := c16DefaultIdx[rt.File]; len(defs) > 0 && cs.R.Chance(0.6) {
+				// the route is registered in a file whose handlers fall back to a default index:
+				// that index must exist, hold data and be outside the restricted tokens
+				names = c16DefaultTriple(vkit.Pick(cs.R, defs))
+				ctx.Count("sweep_default_index_fixture", 1)
+			} else if len(c16DefaultAll) > 0 && cs.R.Chance(0.05) {
+				names = c16DefaultTriple(vkit.Pick(cs.R, c16DefaultAll))
+				ctx.Count("sweep_default_index_fixture", 1)
+			}
+			c16Artifacts = len(c16DefaultIdx[rt.File]) > 0 || strings.Contains(rt.Path, "artifact") || cs.R.Chance(0.15)
 			f := newC16Fix(ctx, cs, names)
 			defer func() { f.close() }()
 			f.installPipelines()
@@ -251,22 +279,43 @@ func TestVerifC16(t *testing.T) {
 					continue
 				}
 				tok := f.mintSpec(spec.Role, spec.NS)
-				for k := -len(c16Directed); k < perTok; k++ {
-					var dir *c16Directive
-					if k < 0 {
-						if tok.global() || tok.Role == "admin" {
-							continue // the directed shapes are about restricted tokens
-						}
-						dir = &c16Directed[k+len(c16Directed)]
-						ctx.Count("directed", 1)
+				var plan []*c16Directive
+				for k := range c16Directed {
+					plan = append(plan, &c16Directed[k])
+				}
+				if spec.Role == "read" && spec.NS != "AB" && strings.HasSuffix(rt.Path, "}") && rt.Method != "GET" && rt.Method != "" {
+					// a mutating route whose last path segment is chosen by the client: once per word the
+					// middleware lists for its read-only routes, the resource name ends in that word (a
+					// role derived from how the path ends would take the request for a read)
+					for _, w := range words {
+						plan = append(plan, &c16Directive{Name: "last segment ends in a listed word", Param: "own", Variant: "own", Query: "own", LastParam: "x" + w, Global: true})
+					}
+				}
+				for k := 0; k < perTok; k++ {
+					plan = append(plan, nil)
+				}
+				for _, dir := range plan {
+					if dir != nil && (tok.Role == "admin" || (tok.global() && !dir.Global) || (dir.NoAB && spec.NS == "AB")) {
+						continue // the directed shapes are about restricted tokens
 					}
 					q := g.instantiate(rt, tok, dir)
+					if dir != nil && dir.Body && q.Body == nil {
+						continue // a shape about the body, on a request without one
+					}
 					if c16Guarded(ctx, tok, q) {
 						continue
 					}
+					if dir != nil {
+						ctx.Count("directed", 1)
+						ctx.Count("directed."+dir.Name, 1)
+					}
 					vs := f.check(tok, q)
 					ctx.Eval(1)
-					ctx.Distinct(fmt.Sprintf("%s|%s|%s|%s", rt.Pattern, tok.Role, spec.NS, q.IdxVar))
+					dk := q.IdxVar
+					if dir != nil && dir.Query != "" {
+						dk += "?" + dir.Query
+					}
+					ctx.Distinct(fmt.Sprintf("%s|%s|%s|%s", rt.Pattern, tok.Role, spec.NS, dk))
 					c16Report(ctx, cs, tok, q, vs)
 					if f.damaged() {
 						f.close()
@@ -284,12 +333,16 @@ func TestVerifC16(t *testing.T) {
 		// ---- random: one token per case, random routes --------------------------------------
 		ctx.Group("random", ctx.N(96, 4000), func(cs *vkit.Case) {
 			names := c16NamePairs[cs.R.Intn(len(c16NamePairs))]
+			c16Artifacts = cs.R.Chance(0.3)
 			f := newC16Fix(ctx, cs, names)
 			defer func() { f.close() }()
 			f.installPipelines()
 			g := &c16Gen{f: f, r: cs.R, words: words, routes: routes}
 			spec := c16TokenSpecs[cs.R.Intn(6)] // read / write only
-			f.mintSpec("write", "*")            // a second token whose jti the generator can aim at
+			if cs.R.Chance(0.2) {
+				spec.NS = vkit.Pick(cs.R, c16OddSpecs)
+			}
+			f.mintSpec("write", "*") // a second token whose jti the generator can aim at
 			tok := f.mintSpec(spec.Role, spec.NS)
 			n := cs.R.Range(20, ctx.N(40, 80))
 			for k := 0; k < n; k++ {
